@@ -21,7 +21,7 @@ theorem setConfig_assigns_package_variable :
 
 /-- … and the variable it assigns is the one `NewTransport` reads, initialised to the zero configuration. -/
 theorem setConfig_assigns_the_cell_NewTransport_reads :
-    Generated.C19.setConfigLhsName = Generated.C19.cellVarName ∧ Generated.C19.cellInit = "&config.Config{}" := by decide
+    Generated.C19.setConfigLhsName = Generated.C19.cellVarName ∧ Generated.C19.cellInitIsZeroConfig = true := by decide
 
 /-- Hence the source's `SetConfig` is the model's `setConfig`, and `transport_uses_config` is about the source. -/
 theorem source_setConfig_is_model :
@@ -41,21 +41,23 @@ def modelFields : List (String × String) :=
    ("IdleConnTimeout", "Proxy.IdleConnTimeout"), ("MaxIdleConnsPerHost", "Proxy.MaxConn"),
    ("ResponseHeaderTimeout", "Proxy.ResponseHeaderTimeout"), ("TLSClientConfig", "$param")]
 
-/-- `NewTransport` is a single `return &http.Transport{…}` whose fields are fed exactly as in the model. -/
-theorem newTransport_reads_the_five_options : Generated.C19.transportFields = modelFields := by decide
+/-- `NewTransport` is straight-line code returning an `http.Transport` whose fields — followed through hoisted
+locals and extracted straight-line helpers to the expressions that define them — are fed exactly as in the model. -/
+theorem newTransport_reads_the_five_options :
+    Generated.C19.newTransportShape = "straight-line" ∧ Generated.C19.transportFields = modelFields := by decide
 
-/-- The only builders of transports in the repository are the three call sites of the model, each with the TLS
-argument the model gives it; `SetConfig` is called from `main` alone. -/
+/-- The only builders of transports in the repository are the three call sites of the model (two in package main,
+one in package route), each with the TLS argument the model gives it; `SetConfig` is called from `main` alone. -/
 theorem transports_are_built_in_three_places :
-    Generated.C19.newTransportCallers = ["main.newHTTPProxy", "main.newHTTPProxy", "route.Route.addTarget"] ∧
+    Generated.C19.newTransportCallSitePackages = ["main", "main", "route"] ∧
     Generated.C19.setConfigCallers = ["main.main"] ∧
     Generated.C19.transportImporters = ["main", "route"] := by decide
 
 theorem transport_call_arguments :
     Generated.C19.newTransportArgs =
-      [("main.newHTTPProxy", "InsecureTransport", "&tls.Config{InsecureSkipVerify: true}"),
-       ("main.newHTTPProxy", "Transport", "nil"),
-       ("route.Route.addTarget", "t.Transport", "&tls.Config{ServerName: t.Host, InsecureSkipVerify: t.TLSSkipVerify}")] := by decide
+      [("main", "InsecureTransport", "&tls.Config{InsecureSkipVerify: true}"),
+       ("main", "Transport", "nil"),
+       ("route", "Transport", "&tls.Config{InsecureSkipVerify: .TLSSkipVerify, ServerName: .Host}")] := by decide
 
 /-- The order fact: `SetConfig(cfg)` is an unconditional top-level statement of `main`, its argument is what
 `config.Load` returned, and nothing that runs before it — no earlier statement of `main`, no `init` of package
@@ -91,40 +93,42 @@ theorem error_handler_table_is_model :
 
 theorem error_handler_table_has_no_other_rows : Generated.C19.errorHandlerTable.length = 4 := by decide
 
-/-- It writes the status it computed, it is the `ErrorHandler` of the `ReverseProxy`, and the transport handed to
-`newHTTPProxy` is the `ReverseProxy`'s `Transport`. -/
+/-- The function analysed above *is* the `ErrorHandler` of the one `httputil.ReverseProxy` literal of package proxy
+(it is found through that literal, not by name), it writes the status it computed, and the literal's `Transport`
+is a parameter of the function that builds it. -/
 theorem error_handler_is_installed :
     Generated.C19.errorHandlerWritesStatusVar = true ∧
-    Generated.C19.reverseProxyErrorHandler = "httpProxyErrorHandler" ∧
-    Generated.C19.reverseProxyTransport = "$param" := by decide
-
-/-- `ServeHTTP` selects per-route, else skip-verify, else default — the model's `selectTransport`. -/
-theorem serveHTTP_selection_rule :
-    Generated.C19.transportSelection =
-      ["tr := p.Transport", "if t.Transport != nil", "tr = t.Transport", "else if t.TLSSkipVerify", "tr = p.InsecureTransport"] := by decide
+    Generated.C19.reverseProxyHasErrorHandler = true ∧
+    Generated.C19.reverseProxyTransportIsParam = true := by decide
 
 /-- No `http.Transport` is constructed or copied (`&http.Transport{…}`, `.Clone()`) in the packages on the request
 path — proxy, proxy/gzip, route, main —: the only constructor is `transport.NewTransport`. -/
 theorem no_transport_is_built_or_copied_outside_NewTransport :
     Generated.C19.transportConstructionsOnRequestPath = [] := by decide
 
-/-- In `ServeHTTP` the transport variable is only ever assigned `p.Transport`, `t.Transport`, `p.InsecureTransport`,
-both reverse-proxy handlers receive that very variable, and the handler variable is only assigned the websocket
-tunnel, the reverse proxy and the gzip wrapper: the model's `handlerFor`
-(`all_handler_paths_use_selected_transport` is about the source). -/
+/-- In `ServeHTTP` — variables named by role: `recv` the receiver, `target` the local assigned from `recv.Lookup(…)`,
+`tr` the value handed to the reverse-proxy constructor as its transport parameter, `h` the variable whose
+`ServeHTTP` is finally called — `tr` is only ever assigned the proxy's `Transport`/`InsecureTransport` or the
+target's `Transport` (also when the choice is made in an extracted helper: its return expressions count), every
+reverse-proxy constructor call receives `tr`, and `h` is only assigned another unexported constructor of the
+package (the websocket tunnel, `local#1`), the reverse proxy and the gzip wrapper: the model's `handlerFor`
+(`all_handler_paths_use_selected_transport` is about the source). Which of the three candidates is selected when
+is not pinned here: every candidate carries the configuration (`selected_transport_uses_config`), and the
+streams exercise the rule (a wrong choice fails the TLS upstreams). -/
 theorem serveHTTP_handlers_get_the_selected_transport :
-    Generated.C19.serveHTTPTransportSources = ["p.InsecureTransport", "p.Transport", "t.Transport"] ∧
+    Generated.C19.serveHTTPRolesFound = true ∧
+    Generated.C19.serveHTTPTransportSources = ["recv.InsecureTransport", "recv.Transport", "target.Transport"] ∧
     Generated.C19.serveHTTPHandlerTransportArgs = ["tr", "tr"] ∧
     Generated.C19.serveHTTPHandlerAssignments =
-      ["newWSHandler", "newWSHandler", "newHTTPProxy", "newHTTPProxy", "gzip.NewGzipHandler"] := by decide
+      ["local#1", "local#1", "reverseProxy", "reverseProxy", "gzip.NewGzipHandler"] := by decide
 
 /-- `ServeHTTP` passes on the request it received: no `context.With*`, no `WithContext`, no deadline or timeout
-handler in `ServeHTTP`, `newHTTPProxy` or the error handler, the request parameter is never rebound, and it is
-the argument of `h.ServeHTTP` — the model's `requestDeadline = none`. -/
+handler in `ServeHTTP`, the unexported helpers it calls, or the error handler, the request parameter is never
+rebound, and it is the argument of `h.ServeHTTP` — the model's `requestDeadline = none`. -/
 theorem serveHTTP_keeps_the_request_context :
     Generated.C19.serveHTTPContextDerivations = [] ∧
     Generated.C19.serveHTTPRequestRebinds = [] ∧
-    Generated.C19.serveHTTPServeArgs = [Generated.C19.serveHTTPRequestParam] ∧
+    Generated.C19.serveHTTPServeArgs = ["req"] ∧
     requestDeadline = none := by decide
 
 end Fabio.Props.C19Facts
